@@ -64,10 +64,9 @@ PROPS = {
 }
 
 # axioms (as printed by Print Assumptions) each property's theorems may depend on; everything else is rejected
-# exact names, or prefixes ending in '*'. All are declared by Coq's standard library (classical real numbers; for the one
-# theorem closed by Interval's `interval` tactic also the specification axioms of the primitive floats / integers).
+# exact names, or prefixes ending in '*'. All are declared by Coq's standard library (classical real numbers).
 REALS = ['ClassicalDedekindReals.sig_forall_dec', 'ClassicalDedekindReals.sig_not_dec',
          'FunctionalExtensionality.functional_extensionality_dep', 'Classical_Prop.classic']
 ALLOW_AXIOMS = {
-    'C03': REALS + ['FloatAxioms.*', 'Uint63.*', 'PrimFloat.*', 'PrimInt63.*', 'Float64.*', 'Uint63Axioms.*', 'FloatOps.*', 'Sint63.*'],
+    'C03': REALS,
 }
